@@ -189,6 +189,7 @@ type vfSec struct {
 }
 
 // ELF sections: tag 9 with ns 64-byte section headers, the string table is a second region.
+//
 //verif:bounds 0..ns section headers (quick 2, thorough 3); names NUL-terminated within 3 bytes inside a 16-byte string table; flags/address/size/name offset symbolic; string-table section index symbolic
 func Verif_C10_elf() {
 	ns := zzverif.Choice("sections", zzverif.Param("maxsections", 2, 3)+1) // 0 .. max section headers
@@ -201,7 +202,7 @@ func Verif_C10_elf() {
 	zzverif.Assume(vfLE32(base, 8) == 9)
 	zzverif.Assume(uintptr(vfLE32(base, 12)) == tagSize)
 	zzverif.Assume(int(vfLE32(base, 16)) == ns) // num
-	zzverif.Assume(vfLE32(base, 20) == 64)     // entsize
+	zzverif.Assume(vfLE32(base, 20) == 64)      // entsize
 	shndx := vfLE32(base, 24)
 	zzverif.Assume(zzverif.Or(int(shndx) < ns, zzverif.And(ns == 0, shndx == 0)))
 	endOff := 8 + ((tagSize + 7) &^ 7)
@@ -272,6 +273,7 @@ func vfIsSpace(b byte) bool {
 }
 
 // Command line: tag 1 holding an ASCII NUL-terminated string of n bytes.
+//
 //verif:bounds command line of exactly n bytes, n in 0..N (quick 3, thorough 5), each byte any non-NUL ASCII value; words with two or more '=' are unspecified and not asserted
 //verif:assumes ASCII (bytes < 0x80): the UTF-8 path of strings.Fields needs the unicode tables
 func Verif_C10_cmdline() {
